@@ -119,7 +119,31 @@ class Chip(object):
     # -- memory
     def rd(self, a, n):
         m = self.mem
-        return bytes(m.get(a + i, 0) for i in range(n))
+        if a + n <= RTR_COPY or a >= RTR_COPY + 16 * 1024:
+            return bytes(m.get(a + i, 0) for i in range(n))
+        # the router copy is synthesised from the router state on demand
+        out = bytearray()
+        for b in range(a, a + n):
+            o = b - RTR_COPY
+            if 0 <= o < 16 * 1024:
+                out.append(self.rtr_copy_record(o // 16)[o % 16])
+            else:
+                out.append(m.get(b, 0))
+        return bytes(out)
+
+    _rec_cache = (None, None)
+
+    def rtr_copy_record(self, i):
+        if self._rec_cache[0] == (i, self.router[i]):
+            return self._rec_cache[1]
+        e = self.router[i]
+        if e is None:
+            rec = struct.pack("<2H3I", i, 0, 0xff000000, 0xffffffff, 0)
+        else:
+            route, key, mask, app, core = e
+            rec = struct.pack("<2H3I", i, (core << 8) | app, route, key, mask)
+        self._rec_cache = ((i, e), rec)
+        return rec
 
     def wr(self, a, data, log=True):
         m = self.mem
@@ -145,15 +169,7 @@ class Chip(object):
     rtr_taken = ()
 
     def sync_router_copy(self, lo=0, hi=1024):
-        for i in range(lo, hi):
-            e = self.router[i]
-            if e is None:
-                rec = struct.pack("<2H3I", i, 0, 0xff000000, 0xffffffff, 0)
-            else:
-                route, key, mask, app, core = e
-                rec = struct.pack("<2H3I", i, (core << 8) | app, route, key,
-                                  mask)
-            self.wr(RTR_COPY + 16 * i, rec, log=False)
+        pass        # synthesised on demand by rd()
 
 
 class Machine(object):
@@ -632,3 +648,6 @@ class Rig(object):
     @property
     def clock(self):
         return self.net.clock
+
+    def activate(self):
+        self.net.activate()
